@@ -2099,6 +2099,54 @@ def c15_extra(ctx):
     return {'coverage': {'print_sweep_on_real_code': getattr(ctx, 'c15_totals', {})}}
 
 
+# ---------------------------------------------------------------------------------------------------
+# C19: static initialisation
+# ---------------------------------------------------------------------------------------------------
+
+def c19_search(ctx, failing, corr, broken):
+    """(1) What the model says about each facility for each enumeration (from the regenerated declaration
+    facts); (2) the real library used before main() with g++ and clang++ at -O0 and -O2."""
+    import static_init
+    out = []
+    txt = cl.lean_eval(
+        '#eval (PhQVerif.Props.C19.enumerations.flatMap fun u => (Init.Facility.all.filter fun f => '
+        '(f == .abbreviation || f == .parse || PhQVerif.Props.C19.unitTypes.contains u) && '
+        '!Init.facilityReady tableDecls f u).map fun f => (u, reprStr f, (f.tables.filterMap fun t => '
+        '(Init.provider tableDecls t u).map fun d => (t, reprStr (Init.classify d), d.file, d.line))))\n',
+        ['PhQVerif.Props.C19'])
+    unready = re.findall(r'\("([^"]+)",\s*"PhQVerif\.Init\.Facility\.(\w+)",\s*(\[.*?\]\))', txt, re.S)
+    by_fac = {}
+    for (u, f, detail) in unready:
+        by_fac.setdefault(f, []).append((u, ' '.join(detail.split())[:400]))
+    for f, lst in sorted(by_fac.items()):
+        out.append({'kind': 'c19-static-init', 'facility': 'convert' if f == 'convert' else f, 'source': 'model',
+                    'enumerations': [u for u, _ in lst], 'count': len(lst), 'tables': lst[0][1],
+                    'what': '[basic.start.dynamic] does not order the table(s) behind `%s` before a user object for %d '
+                            'enumeration(s), e.g. %s: %s' % (f, len(lst), lst[0][0], lst[0][1]),
+                    'failing_input_found': True})
+    inc = os.path.dirname(os.path.dirname(os.path.realpath(os.path.join(ctx.cache, 'symincl', 'PhQ', 'Base.hpp'))))
+    work = os.path.join(ctx.cache, 'c19work')
+    res = static_init.run_all(ctx.cache, inc, ctx.tier, work)
+    ctx.c19_runs = [{k: j[k] for k in ('kind', 'cxx', 'opt', 'order', 'status')} for j in res]
+    for j in res:
+        if j['status'] == 'ok':
+            continue
+        out.append({'kind': 'c19-static-init', 'facility': 'convert' if j['kind'] == 'convert' else 'tables',
+                    'source': 'real code', 'compiler': j['cxx'], 'opt': j['opt'], 'program': j['order'], 'status': j['status'],
+                    'what': '%s %s, %s: namespace-scope objects using the %s facilities: %s: %s' % (
+                        j['cxx'], j['opt'], j['order'], j['kind'], j['status'], j['detail'][:600]),
+                    'replay_cmd': 'python3 /verif/harness/static_init.py <cache> %s' % ctx.tier,
+                    'failing_input_found': True})
+    return out
+
+
+def c19_extra(ctx):
+    runs = getattr(ctx, 'c19_runs', [])
+    return {'coverage': {'static_init_programs_run': len(runs),
+                         'static_init_ok': len([r for r in runs if r['status'] == 'ok']),
+                         'static_init_runs': runs}}
+
+
 def quantity_corr(pred, seed_off, per_quick=2, per_thorough=30):
     def f(ctx):
         sel = [e for e in ctx.model if not e['meta']['cls'].startswith(('unit:', 'model:')) and pred(e)]
@@ -2175,6 +2223,25 @@ SPECS = {
             'checked on the real output',
         ],
         'trusted_extra': ['glibc printf/strtod family correctly rounded (validated against the model, not proved)'],
+    },
+    'C19': {
+        'id': 'C19', 'level': 'proof',
+        'lean_targets': ['PhQVerif.Audit.C19'],
+        'checkers': [],
+        'search': c19_search,
+        'always_search': True,
+        'extra': c19_extra,
+        'assumptions': [
+            'the order of dynamic initialisation is modelled by [basic.start.dynamic] of C++17 (Theory/Init.lean): the '
+            'theorems quantify over every order a conforming implementation may choose; that GCC 12 and Clang 14 conform '
+            'is not proved — their actual orders are exercised by real programs (single TU, two TUs in both link orders, '
+            '-O0 and -O2)',
+            'how each table is declared is read from clang\'s AST on every run; which tables a facility reads is '
+            'written by hand from Base.hpp / UnitSystem.hpp / Unit.hpp (Core/Init.lean Facility.tables)',
+            'user objects are assumed to be ordered or partially-ordered variables defined after the #include',
+        ],
+        'trusted_extra': ['clang 14 AST (declaration kind, inline, constexpr of each variable template declaration)',
+                          'the hand-written reading of [basic.start.dynamic] in Core/Init.lean'],
     },
     'C10': {
         'id': 'C10', 'level': 'proof',
